@@ -545,7 +545,7 @@ Lemma sim_pub : forall c s p sid space topic claim relayed wf, Inv s -> rel s p 
   sim c s p (EPub sid space topic claim relayed wf).
 Proof.
   intros c s p sid space topic claim relayed wf HI HR. pose proof HR as [R1 R2 R3 R4 R5 R6 R7].
-  unfold sim, svc_step, svc_step_gen. cbn [spec_step]. rewrite R1, R3, R4.
+  unfold sim, svc_step, svc_step_gen. cbn [spec_step]. unfold spec_pub. rewrite R1, R3, R4.
   unfold handle_pub. destruct (nassoc sid (sv_conns s)) as [acct|] eqn:EC; cbn [fst snd].
   2:{ eexists. split; [reflexivity|exact HR]. }
   cbv zeta. rewrite (p_member_eq s p space acct R2), <- validate_topic_iff.
@@ -898,6 +898,11 @@ Proof.
       apply ndR_close_fold. exact H2.
     + pose proof (ndR_sub c s sid space pats H) as H2. destruct (handle_sub c s sid space pats) as [s2 o]. cbn [fst] in *.
       apply ndR_pool_remove. exact H2.
+  - rewrite pub_mid_fst. destruct (pub_reaches_lookup c s sid space topic claim relayed wellformed).
+    + destruct (handle_pub_state c (pool_remove s sid) sid space topic claim relayed wellformed) as [rate E]. rewrite E.
+      apply (ndR_pool_remove s sid H).
+    + apply ndR_pool_remove.
+      destruct (handle_pub_state c s sid space topic claim relayed wellformed) as [rate E]. rewrite E. exact H.
 Qed.
 
 (* ------------------------------------------------------------------ a stream leaves the pool in the middle of handleSubscribe *)
@@ -980,6 +985,50 @@ Qed.
 
 (* ------------------------------------------------------------------ the simulation, and the theorem *)
 
+(* ------------------------------------------------------------------ the publisher's stream goes away while its Publish is handled *)
+
+Lemma spec_pub_after_break : forall c p x sid space topic claim relayed wf o,
+  snd (spec_pub c (after_break p x) sid space topic claim relayed wf o)
+  = after_break (snd (spec_pub c p sid space topic claim relayed wf o)) x.
+Proof.
+  intros. unfold spec_pub. cbn [after_break p_accts p_mem p_passed]. unfold p_member. cbn [after_break p_mem].
+  destruct (nassoc sid (p_accts p)) as [acct|]; [|reflexivity]. cbv zeta.
+  destruct o as [| |delivered status forwarded|]; try reflexivity.
+  match goal with |- context [if negb ?b then _ else _] => destruct b end; cbn [negb]; [|reflexivity].
+  destruct status as [code|]; [reflexivity|].
+  destruct (negb relayed && N.leb (burst c) match nassoc sid (p_passed p) with Some u => u | None => 0%N end); [reflexivity|].
+  cbn [snd]. destruct relayed; reflexivity.
+Qed.
+
+Lemma sim_pubmid : forall c s p sid space topic claim relayed wf, Inv s -> rel s p ->
+  sim c s p (EPubMid sid space topic claim relayed wf).
+Proof.
+  intros c s p sid space topic claim relayed wf HI HR. unfold sim, svc_step, svc_step_gen. cbn [spec_step].
+  rewrite pub_mid_fst, pub_mid_snd.
+  destruct (sim_break c s p sid HI HR) as (pb & Hb & HRb).
+  unfold svc_step, svc_step_gen in Hb, HRb. cbn [fst snd spec_step] in Hb, HRb.
+  fold (after_break p sid) in Hb. inversion Hb; subst pb. clear Hb.
+  destruct (pub_reaches_lookup c s sid space topic claim relayed wf).
+  - (* removal, then the Publish *)
+    destruct (sim_pub c (pool_remove s sid) (after_break p sid) sid space topic claim relayed wf
+                      (proj1 (inv_pool_remove s sid HI)) HRb) as (p' & Hs & HR').
+    unfold svc_step, svc_step_gen in Hs, HR'. cbn [fst snd spec_step] in Hs, HR'.
+    pose proof (spec_pub_after_break c p sid sid space topic claim relayed wf
+                  (snd (handle_pub c (pool_remove s sid) sid space topic claim relayed wf))) as Hc.
+    rewrite Hs in Hc. cbn [snd] in Hc. rewrite Hs.
+    destruct (spec_pub c p sid space topic claim relayed wf _) as [ok2 p2]. cbn [snd] in Hc. cbn [orb].
+    exists (after_break p2 sid). split; [reflexivity|]. rewrite <- Hc. exact HR'.
+  - (* the Publish, then the removal *)
+    destruct (sim_pub c s p sid space topic claim relayed wf HI HR) as (p2 & Hs & HR2).
+    unfold svc_step, svc_step_gen in Hs, HR2. cbn [fst snd spec_step] in Hs, HR2.
+    rewrite Hs. destruct (spec_pub c (after_break p sid) sid space topic claim relayed wf _) as [ok1 p1].
+    rewrite orb_true_r. exists (after_break p2 sid). split; [reflexivity|].
+    destruct (sim_break c (fst (handle_pub c s sid space topic claim relayed wf)) p2 sid
+                        (inv_pub c s sid space topic claim relayed wf HI) HR2) as (pb & Hb & HRb2).
+    unfold svc_step, svc_step_gen in Hb, HRb2. cbn [fst snd spec_step] in Hb, HRb2.
+    fold (after_break p2 sid) in Hb. inversion Hb; subst pb. exact HRb2.
+Qed.
+
 Lemma sim_snap : forall c s p, Inv s -> ndR s -> rel s p -> sim c s p ESnap.
 Proof.
   intros c s p HI HN HR. unfold sim, svc_step, svc_step_gen, snapshot. cbn [fst snd spec_step].
@@ -1002,6 +1051,7 @@ Proof.
   - apply sim_setmember; assumption.
   - apply sim_snap; assumption.
   - apply sim_submid; assumption.
+  - apply sim_pubmid; assumption.
 Qed.
 
 Lemma spec_from : forall c evs s p, Inv s -> ndR s -> rel s p -> NoDup (opens evs) ->
@@ -1053,4 +1103,64 @@ Proof.
   - apply has_sub_mid. exact HI.
   - apply (sub_mid_frame c s sid victim space pats HI).
   - intros ->. apply has_sub_mid_self. exact HI.
+Qed.
+
+(* ------------------------------------------------------------------ delivery does not depend on the publisher's stream staying alive *)
+
+Lemma ingress_frame : forall c s s' sid acct space topic claim relayed wf,
+  sv_members s' = sv_members s -> sv_rate s' = sv_rate s ->
+  ingress c s' sid acct space topic claim relayed wf = ingress c s sid acct space topic claim relayed wf.
+Proof. intros c s s' sid acct space topic claim relayed wf Em Er. unfold ingress, is_member, rate_used. rewrite Em, Er. reflexivity. Qed.
+
+(* After ANY history: a Publish on [sid] during whose handling the publisher's stream goes away (context
+   cancelled, dropped by the pool, close hook run — at the first lookup, or after the handler) is written to every
+   OTHER stream sigma exactly when the ingress checks pass — evaluated on the state in which the frame was read —
+   and sigma is pooled and holds a registered pattern that matches; one copy per stream; it is forwarded iff
+   accepted and direct; afterwards exactly the publisher's interest and pool entry are gone. *)
+Theorem publish_survives_publisher_loss : forall c evs sid acct space topic claim relayed wf, fresh_opens evs ->
+  let s := svc_exec c svc_init evs in
+  let s' := svc_exec c svc_init (evs ++ [EPubMid sid space topic claim relayed wf]) in
+  nassoc sid (sv_conns s) = Some acct ->
+  (exists delivered status forwarded,
+    last (svc_run c svc_init (evs ++ [EPubMid sid space topic claim relayed wf])) ONone
+      = OPub delivered status forwarded
+    /\ NoDup delivered
+    /\ (forall sigma, sigma <> sid ->
+          (In sigma delivered <->
+             (ingress c s sid acct space topic claim relayed wf = true
+              /\ in_pool s sigma = true
+              /\ exists p, has s sigma space p = true /\ spec_matches p topic = true)))
+    /\ forwarded = (ingress c s sid acct space topic claim relayed wf && negb relayed))
+  /\ (forall sigma sp0 q, has s' sigma sp0 q = has s sigma sp0 q && negb (N.eqb sigma sid))
+  /\ (forall x, in_pool s' x = in_pool s x && negb (N.eqb x sid)).
+Proof.
+  intros c evs sid acct space topic claim relayed wf HF. cbv zeta. rewrite svc_exec_app, run_last.
+  pose proof (reachable_inv c evs HF) as HI. set (s := svc_exec c svc_init evs) in *. intros EC.
+  change (svc_exec c s [EPubMid sid space topic claim relayed wf])
+    with (fst (handle_pub_mid c s sid space topic claim relayed wf)).
+  change (snd (svc_step c s (EPubMid sid space topic claim relayed wf)))
+    with (snd (handle_pub_mid c s sid space topic claim relayed wf)).
+  rewrite pub_mid_fst, pub_mid_snd.
+  destruct (pool_remove_frame s sid) as (Ec & Em & Er & Hip).
+  destruct (pub_reaches_lookup c s sid space topic claim relayed wf).
+  - assert (EC' : nassoc sid (sv_conns (pool_remove s sid)) = Some acct) by (rewrite Ec; exact EC).
+    destruct (delivery_exact_inv c (pool_remove s sid) sid acct space topic claim relayed wf
+                (proj1 (inv_pool_remove s sid HI)) EC') as (d & st & f & E & ND & Hd & Hf & _).
+    rewrite (ingress_frame c s (pool_remove s sid) sid acct space topic claim relayed wf Em Er) in Hd, Hf.
+    split; [|split].
+    + exists d, st, f. split; [exact E|split; [exact ND|split; [|exact Hf]]].
+      intros sigma Hne. rewrite Hd, Hip. assert (En : N.eqb sigma sid = false) by (apply N.eqb_neq; exact Hne).
+      rewrite En, andb_true_r. split.
+      * intros (A & B & q & Hh & Hm). rewrite has_pool_remove, En, andb_true_r in Hh by exact HI. eauto 6.
+      * intros (A & B & q & Hh & Hm). split; [exact A|split; [exact B|]]. exists q.
+        rewrite has_pool_remove, En, andb_true_r by exact HI. auto.
+    + intros sigma sp0 q. rewrite has_pub. apply has_pool_remove. exact HI.
+    + intros x. rewrite in_pool_pub. apply Hip.
+  - destruct (delivery_exact_inv c s sid acct space topic claim relayed wf HI EC) as (d & st & f & E & ND & Hd & Hf & _).
+    pose proof (inv_pub c s sid space topic claim relayed wf HI) as HI2.
+    split; [|split].
+    + exists d, st, f. split; [exact E|split; [exact ND|split; [|exact Hf]]]. intros sigma _. apply Hd.
+    + intros sigma sp0 q. rewrite has_pool_remove by exact HI2. rewrite has_pub. reflexivity.
+    + intros x. destruct (pool_remove_frame (fst (handle_pub c s sid space topic claim relayed wf)) sid) as (_ & _ & _ & Hip2).
+      rewrite Hip2, in_pool_pub. reflexivity.
 Qed.
